@@ -1110,6 +1110,75 @@ theorem manageProcesses_full (rec : Rec) (u N : Nat) (wt : Waiter) (s : State) (
   erw [if_neg hgt]
   rw [hlen]
 
+/-- **`manage_processes` of the only watcher returns while the check is still in its first, eager run**: the
+    `gen.multi` of `manage_watchers` has its only result, `manage_watchers` ends, its future completes and
+    releases the slot, all in place -/
+theorem unwind_check (n i : Nat) (K : Kernel) (a : Arbiter) (O : List PObj) (ws : List Watcher) (nid : Nat) (L : List Obs) :
+    deliver (exec (n + 2)) (.frame (i + 2) 0) .unit ⟨K, a, O, ws,
+        [{ fid := i + 1, k := .manageWatchersTail false, parent := .top i },
+         { fid := i + 2, k := .multi 1 [], parent := .frame (i + 1) 0 }], [],
+        [{ tid := i, cbs := [.release] }], [], [], nid, L, false⟩ =
+      ((), ⟨K, { a with slot := none }, O, ws, [], [], [], [], [(i, Val.unit)], nid, L, false⟩) := by
+  simp [deliver, bind, getS, removeFrame, modS]
+  have hmr : multiResult 1 [(0, Val.unit)] = .list [.unit] := rfl
+  rw [hmr, show n + 2 = (n + 1) + 1 from rfl, exec_resume_mk]
+  simp [runResume, deliver, bind, getS, removeFrame, modS]
+  rw [exec_resume_mk]
+  simp [runResume, manageWatchersTail, deliver, deliverTop, finishTop, deliverCbs, runTopCb, setSlot, bind, getS,
+    getA, modS, modA, pure]
+
+/-- **the periodic check that completes within its step, after whatever `Arbiter.reap_processes` did (`K O w1 L1`)
+    and whatever `manage_processes` did (`K2 O2 w2 L2`, `nid2`), provided the latter returned in place** (no
+    suspension: `hmp` says that its call, in the state the check has built, ran through to the release of the
+    slot): nothing is left in flight -/
+theorem check_done_gen (u : Nat) (s : State) (hi : Idle u s) (hb : s.blocked = false)
+    (K : Kernel) (O : List PObj) (w1 : Watcher) (L1 : List Obs) (hu : w1.uid = u) (hod : w1.onDemand = false)
+    (hreap : arbReapProcesses (checkEntry s) = ((), { checkEntry s with k := K, objs := O, ws := [w1], log := L1 }))
+    (K2 : Kernel) (O2 : List PObj) (w2 : Watcher) (L2 : List Obs) (nid2 : Nat)
+    (hmp : manageProcesses (exec 99998) u (.frame (s.nextId + 2) 0)
+        ⟨K, { s.a with slot := some "manage_watchers" }, O, [w1],
+          [{ fid := s.nextId + 1, k := .manageWatchersTail false, parent := .top s.nextId },
+           { fid := s.nextId + 2, k := .multi 1 [], parent := .frame (s.nextId + 1) 0 }], [],
+          [{ tid := s.nextId, cbs := [.release] }], [], [], s.nextId + 3, L1, false⟩ =
+      ((), ⟨K2, { s.a with slot := none }, O2, [w2], [], [], [], [], [(s.nextId, Val.unit)], nid2, L2, false⟩)) :
+    step s .check = ⟨K2, { s.a with slot := none }, O2, [w2], [], [], [], [], [(s.nextId, Val.unit)], nid2, L2, false⟩ := by
+  obtain ⟨hfr, hsl, htops, hrd, hslot, hls, hstp, hrst, hwat⟩ := hi
+  obtain ⟨k, a, objs, ws, frames, sleepers, tops, ready, dv, i, log, blocked⟩ := s
+  simp only at hb hfr hsl htops hrd hslot hls hstp hrst hwat hmp
+  subst hb hfr hsl htops hrd
+  simp only [checkEntry] at hreap
+  have hstep : stepM .check (⟨k, a, objs, ws, [], [], [], [], dv, i, log, false⟩ : State) =
+      ((), ⟨K2, { a with slot := none }, O2, [w2], [], [], [], [], [(i, Val.unit)], nid2, L2, false⟩) := by
+    rw [stepM_eq _ _ rfl]
+    have hop : stepOp .check (updK Kernel.beginStep (⟨k, a, objs, ws, [], [], [], [], dv, i, log, false⟩ : State)).2 =
+        ((), ⟨K2, { a with slot := none }, O2, [w2], [], [], [],
+          [.topCb .watch .unit], [(i, Val.unit)], nid2, L2, false⟩) := by
+      simp only [stepOp, bind, clearDone, modS, updK, runK]
+      rw [syncCoroutine_free _ _ _ hrst hslot]
+      simp only [fuelDefault]
+      have e1 : (100000 : Nat) = 99999 + 1 := rfl
+      have e2 : (99999 : Nat) = 99998 + 1 := rfl
+      rw [e1, exec_call_mk]
+      simp only [runCall, List.nil_append]
+      rw [manageWatchers_eq_gen (exec 99999) u w1 _ _ _ hstp hreap rfl hu hod hwat, awaitMulti_single]
+      simp only [List.nil_append]
+      rw [e2, exec_call_mk]
+      simp only [runCall]
+      erw [hmp]
+      simp [bind, getS, modS, pure, armFrame, armTop, addDoneCallback, enqueue]
+    rw [hop]
+    have e1 : (100000 : Nat) = 99999 + 1 := rfl
+    have e2 : (99999 : Nat) = 99998 + 1 := rfl
+    have hs : settle 100000 (⟨K2, { a with slot := none }, O2, [w2], [], [], [],
+          [.topCb .watch .unit], [(i, Val.unit)], nid2, L2, false⟩ : State) =
+        ((), ⟨K2, { a with slot := none }, O2, [w2], [], [], [], [], [(i, Val.unit)], nid2, L2, false⟩) := by
+      rw [e1, settle_cons_mk]
+      simp [runReady1, runTopCb, pure]
+      rw [e2]
+      exact settle_nil _ _ rfl
+    rw [stepTail_eq _ (by rw [hs]; exact hls), hs]
+  unfold step; rw [hstep]
+
 /-- **the periodic check when no worker is missing, after whatever `Arbiter.reap_processes` did**: it completes
     within the step; besides what the reaping changed only the kernel's call counter moves -/
 theorem check_idle_gen (u N : Nat) (l : List Nat) (s : State) (hi : Idle u s) (hb : s.blocked = false)
@@ -1118,64 +1187,16 @@ theorem check_idle_gen (u N : Nat) (l : List Nat) (s : State) (hi : Idle u s) (h
     (hd : DatL u N l { checkEntry s with k := K, objs := O, ws := [w1], log := L1 }) (hN : l.length = N) :
     Idle u (step s .check) ∧ DatL u N l (step s .check) ∧ (step s .check).k.nextPid = K.nextPid ∧
     (step s .check).log = L1 := by
-  obtain ⟨hfr, hsl, htops, hrd, hslot, hls, hstp, hrst, hwat⟩ := hi
-  obtain ⟨k, a, objs, ws, frames, sleepers, tops, ready, dv, i, log, blocked⟩ := s
-  simp only at hb hfr hsl htops hrd hslot hls hstp hrst hwat
-  subst hb hfr hsl htops hrd
-  simp only [checkEntry] at hreap hd
   obtain ⟨w, hws, hw, hpl, _, hk, hrun⟩ := hd
+  simp only [checkEntry] at hws hk hrun
   have hww : w1 = w := by simpa using hws
   subst hww
-  have hstep : stepM .check (⟨k, a, objs, ws, [], [], [], [], dv, i, log, false⟩ : State) =
-      ((), ⟨K.bump (2 * N), { a with slot := none }, O, [w1], [], [], [], [], [(i, Val.unit)], i + 3, L1, false⟩) := by
-    rw [stepM_eq _ _ rfl]
-    have hop : stepOp .check (updK Kernel.beginStep (⟨k, a, objs, ws, [], [], [], [], dv, i, log, false⟩ : State)).2 =
-        ((), ⟨K.bump (2 * N), { a with slot := none }, O, [w1], [], [], [],
-          [.topCb .watch .unit], [(i, Val.unit)], i + 3, L1, false⟩) := by
-      simp only [stepOp, bind, clearDone, modS, updK, runK]
-      rw [syncCoroutine_free _ _ _ hrst hslot]
-      simp only [fuelDefault]
-      have e1 : (100000 : Nat) = 99999 + 1 := rfl
-      have e2 : (99999 : Nat) = 99998 + 1 := rfl
-      have e3 : (99998 : Nat) = 99997 + 1 := rfl
-      rw [e1, exec_call_mk]
-      simp only [runCall, List.nil_append]
-      rw [manageWatchers_eq_gen (exec 99999) u w1 _ _ _ hstp hreap rfl hw.uid hw.onDemand hwat, awaitMulti_single]
-      simp only [List.nil_append]
-      rw [e2, exec_call_mk]
-      simp only [runCall]
-      have hfull : ∀ (wt : Waiter) (fr : List Frame) (nid : Nat),
-          manageProcesses (exec 99998) u wt ⟨K, { a with slot := some "manage_watchers" }, O, [w1], fr, [],
-            [{ tid := i, cbs := [.release] }], [], [], nid, L1, false⟩ =
-          deliver (exec 99998) wt .unit ((⟨K, { a with slot := some "manage_watchers" }, O, [w1], fr, [],
-            [{ tid := i, cbs := [.release] }], [], [], nid, L1, false⟩ : State).bump (2 * N)) :=
-        fun wt fr nid => manageProcesses_full (exec 99998) u N wt _
-          ⟨w1, rfl, hw, by rw [hpl, hN], rfl, hk, by rw [hpl]; exact hrun⟩
-      rw [hfull]
-      simp [deliver, State.bump, bind, getS, removeFrame, modS]
-      have hmr : multiResult 1 [(0, Val.unit)] = .list [.unit] := rfl
-      rw [hmr, e3, exec_resume_mk]
-      simp [runResume, deliver, bind, getS, removeFrame, modS]
-      have e4 : (99997 : Nat) = 99996 + 1 := rfl
-      rw [e4, exec_resume_mk]
-      simp [runResume, manageWatchersTail, deliver, deliverTop, finishTop, deliverCbs, runTopCb, setSlot, bind, getS,
-        getA, modS, modA, pure, armFrame, armTop, addDoneCallback, enqueue]
-    rw [hop]
-    have e1 : (100000 : Nat) = 99999 + 1 := rfl
-    have e2 : (99999 : Nat) = 99998 + 1 := rfl
-    have hs : settle 100000 (⟨K.bump (2 * N), { a with slot := none }, O, [w1], [], [], [],
-          [.topCb .watch .unit], [(i, Val.unit)], i + 3, L1, false⟩ : State) =
-        ((), ⟨K.bump (2 * N), { a with slot := none }, O, [w1], [], [], [], [], [(i, Val.unit)], i + 3, L1, false⟩) := by
-      rw [e1, settle_cons_mk]
-      simp [runReady1, runTopCb, pure]
-      rw [e2]
-      exact settle_nil _ _ rfl
-    rw [stepTail_eq _ (by rw [hs]; exact hls), hs]
-  have hres : step (⟨k, a, objs, ws, [], [], [], [], dv, i, log, false⟩ : State) .check =
-      ⟨K.bump (2 * N), { a with slot := none }, O, [w1], [], [], [], [], [(i, Val.unit)], i + 3, L1, false⟩ := by
-    unfold step; rw [hstep]
+  have hres := check_done_gen u s hi hb K O w1 L1 hw.uid hw.onDemand hreap (K.bump (2 * N)) O w1 L1 (s.nextId + 3) (by
+    rw [manageProcesses_full (exec 99998) u N _ _ ⟨w1, rfl, hw, by rw [hpl, hN], rfl, hk, by rw [hpl]; exact hrun⟩]
+    exact unwind_check 99996 s.nextId _ _ _ _ _ _)
   rw [hres]
-  exact ⟨⟨rfl, rfl, rfl, rfl, rfl, hls, hstp, hrst, hwat⟩, ⟨w1, rfl, hw, hpl, rfl, hk.bump _, hrun⟩, rfl, rfl⟩
+  exact ⟨⟨rfl, rfl, rfl, rfl, rfl, hi.loopStop, hi.stopping, hi.restarting, hi.watchers⟩,
+    ⟨w1, rfl, hw, hpl, rfl, hk.bump _, hrun⟩, rfl, rfl⟩
 
 /-- **the periodic check when no worker is missing**: it completes within the step and changes
     nothing but the kernel's call counter -/
